@@ -54,7 +54,7 @@ func collect(v any, path string, out *[]loc) {
 	}
 }
 
-var oddNames = []string{"", "a.a", "a.b", "x.y.z", ".", "a.", ".a", "ünï", "$ref", "a b", "{}", "default", "items", "properties", "example", "a.a.a", "definitions.a", "0"}
+var oddNames = []string{"title", "description", "name", "type", "format", "enum", "required", "in", "schema", "x-ok", "", "a.a", "a.b", "x.y.z", ".", "a.", ".a", "ünï", "$ref", "a b", "{}", "default", "items", "properties", "example", "a.a.a", "definitions.a", "0"}
 
 // Mutate applies n structural edits to a document tree in place and returns their descriptions.
 func Mutate(r *lib.Rand, doc map[string]any, n int) []string {
@@ -66,7 +66,30 @@ func Mutate(r *lib.Rand, doc map[string]any, n int) []string {
 			break
 		}
 		l := locs[r.Intn(len(locs))]
-		switch r.Intn(12) {
+		switch r.Intn(13) {
+		case 12:
+			// a vendor extension (or another stray member) dropped into an object, preferably a reference object
+			var objs, refs []map[string]any
+			for _, c := range locs {
+				if m, ok := c.get().(map[string]any); ok {
+					objs = append(objs, m)
+					if _, isRef := m["$ref"]; isRef {
+						refs = append(refs, m)
+					}
+				}
+			}
+			pool := objs
+			if len(refs) > 0 && r.P(0.6) {
+				pool = refs
+			}
+			if len(pool) > 0 {
+				m := pool[r.Intn(len(pool))]
+				k := []string{"x-ext", "x-nullable", "x-", "y-ext", "X-ext", "description"}[r.Intn(6)]
+				if _, exists := m[k]; !exists {
+					m[k] = []any{json.Number("1"), "v", true, map[string]any{}}[r.Intn(4)]
+					edits = append(edits, "add-member "+k)
+				}
+			}
 		case 0:
 			if l.obj != nil {
 				delete(l.obj, l.key)
@@ -109,6 +132,10 @@ func Mutate(r *lib.Rand, doc map[string]any, n int) []string {
 				target := []string{"#/definitions/Nowhere", "#/nowhere", "#/parameters/nope", "#/responses/nope", "#/definitions", "#", "other.json#/x"}[r.Intn(7)]
 				if r.Bool() {
 					m["$ref"] = target // reference with siblings
+					if r.Bool() {
+						m["default"] = []any{json.Number("1"), "d", map[string]any{}}[r.Intn(3)]
+						m["example"] = []any{json.Number("2"), "e"}[r.Intn(2)]
+					}
 					edits = append(edits, "add-ref-sibling "+l.path)
 				} else {
 					l.set(map[string]any{"$ref": target})
@@ -147,6 +174,23 @@ func Mutate(r *lib.Rand, doc map[string]any, n int) []string {
 				if r.P(0.3) {
 					m["default"] = []any{"d", json.Number("1"), map[string]any{"a": json.Number("1")}, nil}[r.Intn(4)]
 					m["example"] = []any{"e", json.Number("2")}[r.Intn(2)]
+				}
+				if r.P(0.25) {
+					// an array parameter whose default / example holds null or mixed elements
+					m["type"] = "array"
+					if _, has := m["items"]; !has || r.Bool() {
+						m["items"] = map[string]any{"type": r.Pick("string", "integer", "array"), "items": map[string]any{"type": "string"}}
+					}
+					delete(m, "schema")
+					if m["in"] == "body" {
+						m["in"] = "query"
+					}
+					vals := []any{[]any{nil}, []any{"a", nil}, []any{[]any{nil}}, []any{json.Number("1"), "x"}, []any{}}
+					m["default"] = vals[r.Intn(len(vals))]
+					if r.Bool() {
+						m["example"] = vals[r.Intn(len(vals))]
+					}
+					edits = append(edits, "param-array-default "+pl.path)
 				}
 			}
 		case 8:
